@@ -905,10 +905,45 @@ class Engine(object):
     # ------------------------------------------------------------------ solver access
     def _check(self, *extra):
         t = time.time()
+        self._alt_model = None
         r = self.solver.check(*extra)
+        if r == z3.unknown:
+            r = self._retry_unknown(extra)
         self.stats.solver_s += time.time() - t
         self.stats.queries += 1
         return r
+
+    def _retry_unknown(self, extra):
+        """an `unknown` (time-out) is re-tried on fresh solvers with other seeds and, for non-linear queries, the nlsat
+        tactic; the first decided answer is taken (any answer is a sound decision of the same query)"""
+        self.stats.__dict__["unknown_retries"] = self.stats.__dict__.get("unknown_retries", 0) + 1
+        makers = [lambda: z3.Solver(), lambda: z3.Solver(), lambda: z3.Then("simplify", "qfnra-nlsat").solver(), lambda: z3.Solver()]
+        for k, mk in enumerate(makers):
+            try:
+                s2 = mk()
+                s2.set("timeout", self.timeout_ms)
+                try:
+                    s2.set("random_seed", 7 + 13 * k + self.seed)
+                except z3.Z3Exception:
+                    pass
+                for a in self.solver.assertions():
+                    s2.add(a)
+                r = s2.check(*extra)
+            except z3.Z3Exception:
+                continue
+            if r != z3.unknown:
+                if r == z3.sat:
+                    self._alt_model = s2.model()
+                    self._alt_solver = s2
+                return r
+        return z3.unknown
+
+    def last_model(self):
+        m = getattr(self, "_alt_model", None)
+        if m is not None:
+            self._alt_model = None
+            return m
+        return self.solver.model()
 
     def _model_to_base(self, m):
         out = {}
@@ -944,7 +979,7 @@ class Engine(object):
                 raise PathAbort()
             if r != z3.sat:
                 self.gap("solver unknown on assume")
-            self._rebuild_witness(self._model_to_base(self.solver.model()))
+            self._rebuild_witness(self._model_to_base(self.last_model()))
 
     def gap(self, msg):
         self.stats.gaps.append(msg)
@@ -972,7 +1007,7 @@ class Engine(object):
         other = z3.Not(zc) if d else zc
         r = self._check(other)
         if r == z3.sat:
-            self.work.append((self.prefix[: self.idx] + [not d], self._model_to_base(self.solver.model())))
+            self.work.append((self.prefix[: self.idx] + [not d], self._model_to_base(self.last_model())))
         elif r != z3.unsat:
             self.gap("solver unknown at branch")
         self.prefix.append(d)
@@ -1036,7 +1071,7 @@ class Engine(object):
                 self.stats.branch_points += 1
                 r = self._check(z3.Not(zc))
                 if r == z3.sat:
-                    self.work.append((self.prefix[: self.idx] + [(v, False)], self._model_to_base(self.solver.model())))
+                    self.work.append((self.prefix[: self.idx] + [(v, False)], self._model_to_base(self.last_model())))
                 elif r != z3.unsat:
                     self.gap("solver unknown at concretize_int")
                 d = True
@@ -1313,7 +1348,7 @@ class Engine(object):
             st.checks_unsat += 1
             return "unsat"
         if r == z3.sat:
-            m = self.solver.model()
+            m = self.last_model()
             basevals = self._model_to_base(m)
             if self.deferred:
                 # the candidate lives on an over-approximated path (non-linear tests were forked without a
